@@ -156,6 +156,12 @@ func c08One(c *run.Ctx, f wireFrame, k int, fname string, ferr error, style int,
 		c.Violation("C08/packet-from-partial-frame/"+where+"/"+fname+"/"+styleName, fmt.Sprintf("%s frame of %d bytes cut at offset %d (%s, %s, %s): ReadPacket returned a packet although only %d bytes were delivered", T, len(f.Bytes), k, fname, styleName, dl, rd.Delivered), det())
 	case !res.PairOK():
 		c.Violation("C08/pair/"+where, "ReadPacket returned neither packet nor error", det())
+	case !rd.BareErr:
+		// the call failed without ever getting (0, E) from the reader: it
+		// refused what it had seen so far, possibly the very bytes that came
+		// together with E (which io.ReadFull drops when the buffer is full):
+		// there was no failure for it to propagate
+		c.Count("faults", "refused-before-the-failure", 1)
 	case ferr != io.EOF && !errors.Is(res.Err, mon.ErrInjected):
 		c.Violation("C08/error-lost/"+where+"/"+fname+"/"+styleName, fmt.Sprintf("%s frame cut at offset %d: the reader failed with E but errors.Is(err, E) is false: %v", T, k, res.Err), det())
 	case ferr == io.EOF && k == 0 && !errors.Is(res.Err, io.EOF):
